@@ -670,6 +670,43 @@ def _atoms_of(pl, out):
                 _atoms_of(Poly(dict(k)), out)
 
 
+def _const_producers_encode_at_effective_k(p):
+    """CKKSConstPlaintextConversion::to_znx_at_k(self, base2k, k, log_delta): the digits are produced by encode_const_coeff_*(base2k, k, ..) and the attached metadata is
+    (log_delta, k saturating_sub log_delta), i.e. effective_k == k whenever k >= log_delta"""
+    fs = [f for f in p.lib_fns() if f.name == "to_znx_at_k" and f.uid.startswith("poulpy_ckks::") and f.blocks]
+    if not fs:
+        return False
+    for f in fs:
+        pn = {v: k for k, v in f.param_names().items()}
+        if "k" not in pn or "log_delta" not in pn:
+            return False
+        sym = Sym(f, Flow(f))
+        kk, dd = Poly.atom(("p", pn["k"], ())), Poly.atom(("p", pn["log_delta"], ()))
+        enc = 0
+        for body in [f] + p.closures_of(f):
+            bs = Sym(body, Flow(body)) if body is not f else sym
+            for bi, t in body.calls():
+                if (body.callee_def(t) or {}).get("n", "").startswith("encode_const_coeff") and len(t["a"]) >= 2:
+                    enc += 1
+                    v = bs.operand(t["a"][1])
+                    # inside the closures k is a capture: accept the capture of k (by name)
+                    if body is f and v.key() != kk.key():
+                        return False
+        meta_ok = False
+        for blk in f.blocks:
+            for st in blk["s"]:
+                if st[0] == "A" and st[2]["k"] == "Agg" and "CKKSMeta" in str(st[2].get("adt", st[2].get("s", ""))) or (st[0] == "A" and st[2]["k"] == "Agg" and st[2].get("fields") == ["log_delta", "log_budget"]):
+                    o = st[2]["o"]
+                    if len(o) == 2:
+                        a, b = sym.operand(o[0]), sym.operand(o[1])
+                        want = Poly.atom(("f", "saturating_sub", (kk.key(), dd.key())))
+                        if a.key() == dd.key() and b.key() == want.key():
+                            meta_ok = True
+        if not (enc and meta_ok):
+            return False
+    return True
+
+
 def ck9_pt(p, res):
     """exponent balance of ct x plaintext multiplication.  The ciphertext holds m_a * 2^-budget_a, the plaintext m_b * 2^(delta_b - position_b) with position_b a property of the
     plaintext alone; the product scaled by 2^cnv_offset is claimed to be m_a m_b * 2^-res_log_budget.  Hence  cnv_offset + res_log_budget - budget_a + delta_b  is the plaintext's
@@ -727,6 +764,31 @@ def ck9_pt(p, res):
             good += 1
             if d1 != d2 and bad is None:
                 bad = (s1, s2)
+        # constants: CKKSPlaintextCstZnx producers encode the digits at k = log_delta + log_budget of the metadata they attach (checked below), so when the
+        # plaintext operand of the derivation is a bare CKKSMeta its position is that metadata's effective_k
+        meta_params = [l for l in range(1, f.argc + 1) if f.local_ty(l)["s"].endswith("CKKSMeta")]
+        if meta_params and good >= 300 and not bad and not _const_producers_encode_at_effective_k(p):
+            res.undec("CK-9", "%s: constant producers do not visibly encode at log_delta + log_budget; constant position not decided" % f.pretty)
+        elif meta_params and good >= 300 and not bad:
+            mp = meta_params[0]
+            pk = Poly.atom(("p", mp, ())).key()
+            for val in pwl.valuations(count=1500):
+                ev = pwl.Eval(p, val)
+                ev.syms[f.uid] = sym
+                try:
+                    d1 = ev.poly(off) + ev.poly(bud) - ev.poly(ba) + ev.poly(db)
+                    pos = ev.atom(("f", "log_delta", (pk,))) + ev.atom(("f", "log_budget", (pk,)))
+                except pwl.ErrPath:
+                    continue
+                if d1 != pos:
+                    bad = ({"plaintext_position_assumed": d1, "effective_k_of_constant": pos, "log_delta": ev.atom(("f", "log_delta", (pk,))), "log_budget": ev.atom(("f", "log_budget", (pk,)))}, {})
+                    break
+            if bad:
+                res.bad("CK-9", f.pretty, "exponent-balance:constant-position",
+                        "%s places the constant at bit position %d while its digits are encoded at log_delta + log_budget = %d (%s): a constant produced by to_znx_at_k(k) with k not a "
+                        "multiple of base2k is multiplied in at the wrong scale" % (f.pretty, bad[0]["plaintext_position_assumed"], bad[0]["effective_k_of_constant"], bad[0]),
+                        site=f.where(mc[0][1]["l"]), detail=bad[0])
+                continue
         if good < 300:
             res.undec("CK-9", "%s: only %d admissible valuation pairs" % (f.pretty, good))
         elif bad:
@@ -735,6 +797,69 @@ def ck9_pt(p, res):
                     "is returned with metadata that does not describe its scale" % (f.pretty, bad[0], bad[1]), site=f.where(mc[0][1]["l"]), detail={"first": bad[0], "second": bad[1]})
         else:
             res.ok("CK-9", {"fn": f.pretty, "shape": "ct x pt", "valuation_pairs": good})
+    return n
+
+
+def ck10(p, res):
+    """ensure_plaintext_alignment(op, ct_log_budget, pt_log_delta, pt_k) returns the number of bits by which the plaintext still has to be moved to sit at the ciphertext's scale.
+    A caller that takes the success payload and never uses it adds / subtracts the plaintext at its own bit position and reports success."""
+    n = 0
+    for f in sorted(p.lib_fns(), key=lambda x: x.uid):
+        if not f.uid.startswith("poulpy_ckks::") or f.kind == "Closure":
+            continue
+        sites = [(bi, t) for bi, t in f.calls() if (f.callee_def(t) or {}).get("n") == "ensure_plaintext_alignment"]
+        if not sites:
+            continue
+        g = CFG(f)
+        for bi, t in sites:
+            if bi not in g.reach or not t.get("d"):
+                continue
+            n += 1
+            carriers = {t["d"][0]}
+            used = False
+            returned = False
+            changed = True
+            while changed:
+                changed = False
+                for bj in sorted(g.reach):
+                    blk = f.blocks[bj]
+                    for st in blk["s"]:
+                        if st[0] != "A":
+                            continue
+                        reads = [o[1][0] for o in st[2].get("o", []) if o[0] in ("c", "m")]
+                        if st[2]["k"] in ("Ref", "RawPtr", "Discriminant") and "p" in st[2]:
+                            reads.append(st[2]["p"][0])
+                        if not (set(reads) & carriers):
+                            continue
+                        if st[2]["k"] in ("Use", "Cast", "Ref") and len(st[1]) == 1:
+                            if st[1][0] == 0:
+                                returned = True
+                            elif st[1][0] not in carriers:
+                                carriers.add(st[1][0])
+                                changed = True
+                        elif st[2]["k"] == "Discriminant":
+                            pass
+                        else:
+                            used = True
+                    tt = blk["t"]
+                    if tt and tt["k"] == "Call":
+                        nm = (f.callee_def(tt) or {}).get("n", "")
+                        rd = [a[1][0] for a in tt["a"] if a[0] in ("c", "m")]
+                        if set(rd) & carriers:
+                            if nm in ("branch", "from_residual"):
+                                if tt.get("d") and tt["d"][0] not in carriers and nm == "branch":
+                                    carriers.add(tt["d"][0])
+                                    changed = True
+                            else:
+                                used = True
+                    elif tt and tt["k"] == "SwitchInt":
+                        pass
+            if used or returned:
+                res.ok("CK-10", {"fn": f.pretty, "alignment_offset": "used"})
+            else:
+                res.bad("CK-10", f.pretty, "alignment-offset-dropped",
+                        "%s asks ensure_plaintext_alignment how far the plaintext is from the ciphertext's scale and drops the answer: a constant encoded below log_budget + log_delta is added at "
+                        "its own bit position and Ok is returned" % f.pretty, site=f.where(t["l"]))
     return n
 
 
@@ -752,6 +877,7 @@ def run(res, tier):
     res.rule("CK-7", "a core operation asserting k.div_ceil(base2k) == x.size() is not handed (x, x.effective_k()) without the call site establishing the relation")
     res.rule("CK-8", "every out-of-place operation consults the destination's capacity (offset_unary / offset_binary / max_k / set_meta_checked) before storing source-derived metadata")
     res.rule("CK-9", "ct x ct multiplication: cnv_offset + res_log_budget == log_budget(a) + log_budget(b) on every non-error valuation (piecewise-linear identity over the extracted expressions)")
+    res.rule("CK-10", "the offset returned by ensure_plaintext_alignment is used (shift amount, comparison, return value), not dropped")
     res.rule("CK-5", "an `==` fast path followed by `<`/`<=` branches compares the same pair of quantities")
     res.assumptions = ["poulpy-core shape asserts are outside this property", "metadata on Err paths is not required to be untouched"]
     cfgs = ["avx-dev"] if tier == "quick" else ["avx-dev", "ref-dev"]
@@ -776,6 +902,8 @@ def run(res, tier):
         res.floor("CK-9", "ct x ct offset derivations", n9, 2)
         n9p = ck9_pt(p, res)
         res.floor("CK-9", "ct x pt offset derivations", n9p, 2)
+        n10 = ck10(p, res)
+        res.floor("CK-10", "plaintext alignment queries", n10, 4)
         n6 = ck6(p, res)
         res.floor("CK-6", "ct x ct parameter derivations", n6, 1)
         res.fn_count += n4
